@@ -943,6 +943,10 @@ IDENTITY_KEYS = {
 ADVANCE_KEYS = {"core::iter::Iterator::next", "core::iter::DoubleEndedIterator::next_back"}
 
 
+# wrapping arithmetic is the same function as the checked operator wherever the checked operator does not panic
+WRAPPING = {"core::num::wrapping_sub": "Sub", "core::num::wrapping_add": "Add", "core::num::wrapping_mul": "Mul"}
+
+
 def callee_base(key):
     """key without the @adt qualifier"""
     return key.split("@")[0] if isinstance(key, str) else key
@@ -972,6 +976,12 @@ def _norm(t, identity, memo):
         args = tuple(n(a) for a in t[2])
         if isinstance(key, str) and (key in identity or callee_base(key) in identity) and len(args) >= 1:
             return args[0]
+        if isinstance(key, str) and callee_base(key) in WRAPPING and len(args) == 2:
+            a, b = args
+            op = WRAPPING[callee_base(key)]
+            if op in COMM and repr(b) < repr(a):
+                a, b = b, a
+            return ("bin", op, a, b)
         return ("call", key if isinstance(key, str) else ("indirect", n(key[1])), args, t[3])
     if k == "mutby":
         return ("mutby", t[1], tuple(n(a) for a in t[2]), t[3], t[4])
